@@ -20,7 +20,7 @@ ASSUMPTIONS = [
     "existence queries reject corruption on local stores only (the base store's query is existence-only, as the statement says)",
 ]
 MONITORS = "verdicts of check / oids_exist / checkout / verifying add compared with the harness's own ground truth of which objects were tampered; file presence and mode bits re-read from disk"
-REQUIRED_COUNTERS = ["verifying_adds_with_hardlink_option", "verifying_adds_with_a_retrying_error_hook", "tree_level_checks", "verifying_adds_through_a_copied_store_object", "relinking_checkouts_over_intact_copies", "verify_transfer_rounds_by_configuration_only", "re_adds_of_tampered_object", "probes_with_removal_denied", "big_existence_queries", "verify_transfer_rounds", "verify_add_over_intact_object", "read_only_handle_probes", "used_intact_before_tamper", "probe/check", "probe/oids_exist", "probe/checkout", "probe/verify-add", "state/warm", "state/cold", "state/none",
+REQUIRED_COUNTERS = ["existence_only_looks_before_the_probe", "verifying_adds_of_several_mismatching_sources", "verify_add_over_tampered_stored_copy", "verifying_adds_with_hardlink_option", "verifying_adds_with_a_retrying_error_hook", "tree_level_checks", "verifying_adds_through_a_copied_store_object", "relinking_checkouts_over_intact_copies", "verify_transfer_rounds_by_configuration_only", "re_adds_of_tampered_object", "probes_with_removal_denied", "big_existence_queries", "verify_transfer_rounds", "verify_add_over_intact_object", "read_only_handle_probes", "used_intact_before_tamper", "probe/check", "probe/oids_exist", "probe/checkout", "probe/verify-add", "state/warm", "state/cold", "state/none",
                      "tampered_objects", "intact_objects_checked", "store/local", "store/base", "tamper/truncate", "tamper/append",
                      "tamper/same-length", "tamper/diff-length", "tamper/rename", "unprotected_intact_checked"]
 
@@ -132,7 +132,18 @@ def run_shard(ctx):
                         errs.append(o)
                         vodb.add([fallback], fs, [o], **{k_: v_ for k_, v_ in kw.items() if k_ != "hardlink"})
 
-                vodb.add([src], fs, [wrong], on_error=hook, **kw)
+                srcs_, wrongs_ = [src], [wrong]
+                if not retried and len(files) > 1 and rng.random() < 0.4:
+                    # several mismatching sources in one call: every one of them is rejected, not just the first
+                    for k2_ in [k_ for k_ in sorted(files) if k_ != k][: rng.randrange(1, 3)]:
+                        srcs_.append(os.path.join(ws, *k2_))
+                        wrongs_.append(H("md5", files[k2_] + b"other-%d" % len(srcs_)))
+                    res.count("verifying_adds_of_several_mismatching_sources")
+                vodb.add(srcs_, fs, wrongs_, on_error=hook, **kw)
+                for w2_ in wrongs_[1:]:
+                    if os.path.exists(vodb.oid_to_path(w2_)):
+                        res.violation("verifying-add-retained-mismatching-object/not-the-first-of-the-call", f"object {w2_} (a later source of the same call) kept although its bytes do not match", case=case, detail=cfg)
+                        break
                 res.nontrivial("verify", files[k], cls, smode, via_cfg)
                 res.sample({**cfg, "verify_via_config": via_cfg})
                 p = vodb.oid_to_path(wrong)
@@ -155,8 +166,18 @@ def run_shard(ctx):
                     other_src = os.path.join(ws, "other-src")
                     with open(other_src, "wb") as f:
                         f.write(files[k][::-1] + b"not-the-same")
+                    ce_ = {"check_exists": False}
+                    if rng.random() < 0.4:
+                        # ... the stored copy itself has been tampered with since (left writable), and the re-add leaves existing
+                        # objects to the store's own judgement (the default)
+                        if cls == "local":
+                            os.chmod(p, 0o644)
+                        with open(p, "ab") as f:
+                            f.write(b"tampered-in-the-store")
+                        ce_ = {}
+                        res.count("verify_add_over_tampered_stored_copy")
                     try:
-                        vodb.add([other_src], fs, [good], check_exists=False, on_error=(lambda o, e: errs.append(o)) if rng.random() < 0.5 else None, **kw)
+                        vodb.add([other_src], fs, [good], on_error=(lambda o, e: errs.append(o)) if rng.random() < 0.5 else None, **ce_, **kw)
                     except Exception:  # noqa: BLE001  (refusing loudly is fine)
                         pass
                     if os.path.exists(p) and file_bytes(p) != files[k]:
@@ -263,6 +284,15 @@ def run_shard(ctx):
                     victims = set()
                 intact = [o for o in oids if o not in victims]
                 cfg["re_added"] = True
+            if victims and rng.random() < 0.25:
+                # someone first only asks whether the objects are there (no hashing): that look must not launder them
+                for v_ in sorted(victims):
+                    try:
+                        odb.check(v_, check_hash=False)
+                    except Exception:  # noqa: BLE001
+                        pass
+                res.count("existence_only_looks_before_the_probe")
+                cfg["existence_only_look_first"] = True
             # removal of the rejected object may be denied (shared cache / read-only mount): nothing may be served then either
             deny = rng.random() < 0.12 and bool(victims)
             denier = None
